@@ -26,6 +26,7 @@ FUNCTIONS = [
     "pyxel.util.image:load_cropped_and_aligned_image",
     "pyxel.models.photon_collection.load_image:load_image",
     "pyxel.models.charge_generation.load_charge:load_charge",
+    "pyxel.inputs.loader:load_image (witness layer)", "pyxel.inputs.loader:load_table (witness layer)",
 ]
 STUBS = [
     "np in pyxel.util.image -> vx.symnp; builtin range in pyxel.util.image -> symbolic-start range",
